@@ -95,6 +95,21 @@ def run(tier, seed):
         obs.update(o2)
         crashes.update(c2)
     cases = cases + nested
+    # one ClientConfig value used for two launches in a row (a plugin being replaced by another build): the
+    # first negotiates the highest common version, the second plugin only serves a lower one
+    relaunch = []
+    multi = [c for c in pairs if len(c["host"]) >= 2 and c["host_form"] in ("versioned", "both")]
+    for c in (multi if tier == "thorough" else rng.sample(multi, min(25, len(multi)))):
+        hi = max(c["host"])
+        lower = [v for v in c["host"] if v != hi]
+        lo = rng.choice(lower)
+        relaunch.append(dict(c, name="r" + c["name"], first_served=[{"v": hi, "proto": rng.choice(["netrpc", "grpc"])}],
+                             served=[{"v": lo, "proto": rng.choice(["netrpc", "grpc"])}], served_form="versioned", grpc_factory=True))
+    if relaunch:
+        o3, c3 = vlib.run_cases(b["drivers"], "TestVersionCases", relaunch, "c02r2", env={"VERIF_VPLUGIN": b["vplugin"]}, shards=min(4, vlib.NCPU))
+        obs.update(o3)
+        crashes.update(c3)
+        cases = cases + relaunch
     by = {c["name"]: c for c in cases}
     for name in vlib.hung_cases(obs):
         rep.violation("c02:hang", "case %s did not finish within %ss: a call never returned (%s)" % (name, obs[name].get("limit_s"), json.dumps({k: v for k, v in by[name].items() if k != "name"})[:300]),
@@ -115,6 +130,9 @@ def run(tier, seed):
                 c["host"], c["host_form"], [(s["v"], s["proto"]) for s in c["served"]], c["served_form"], c["grpc_factory"], json.dumps(o["out"]))
             common = sorted(set(c["host"]) & set(s["v"] for s in c["served"]))
             sig = "c02:pair:%s%s" % ("common" if common else "nocommon", ":nested-host" if c.get("host_env_versions") else "")
+            if c.get("first_served"):
+                sig += ":relaunch"
+                what = "the ClientConfig was used before for a plugin serving %s; " % [x["v"] for x in c["first_served"]] + what
             if c.get("host_env_versions"):
                 what = "host is itself a plugin (its environment has PLUGIN_PROTOCOL_VERSIONS=%s); " % c["host_env_versions"] + what
         else:
